@@ -1,6 +1,7 @@
 package kit
 
 import (
+	stdErrors "errors"
 	"fmt"
 
 	lib "github.com/jsightapi/jsight-schema-go-library"
@@ -19,6 +20,16 @@ type Error interface {
 // ConvertError converts error to Error interface.
 // Added for BC
 func ConvertError(f *fs.File, err error) Error {
+	// AddType wraps the error of the added type (fmt.Errorf("...: %w", err)):
+	// look for the library's error inside.
+	for !isLibraryError(err) {
+		inner := stdErrors.Unwrap(err)
+		if inner == nil {
+			break
+		}
+		err = inner
+	}
+
 	switch e := err.(type) { //nolint:errorlint // This is okay.
 	case errors.ErrorCode:
 		return sdkError{
@@ -48,6 +59,14 @@ func ConvertError(f *fs.File, err error) Error {
 		}
 	}
 	return errors.NewDocumentError(f, errors.Format(errors.ErrGeneric, fmt.Sprintf("%s", err)))
+}
+
+func isLibraryError(err error) bool {
+	switch err.(type) { //nolint:errorlint // The wrappers are removed by the caller.
+	case errors.ErrorCode, errors.DocumentError, lib.ParsingError, lib.ValidationError:
+		return true
+	}
+	return false
 }
 
 type sdkError struct {
